@@ -32,15 +32,32 @@ REQUIRED_THEOREMS = [
     "SpecVerif.Props.C11.fresh_reachable_partial",
     "SpecVerif.Props.C11.full_statement_fails",
     "SpecVerif.Props.C11.mem_invMapOf_iff",
+    "SpecVerif.Props.C11.managed_invMap_iff",
+    "SpecVerif.Props.C11.unmanaged_invMap_iff",
+    "SpecVerif.Props.C11.own_property_declaration_wins",
+    "SpecVerif.Props.C11.silent_property_inherits",
+    "SpecVerif.Props.C11.redefault_keeps_invalidated_by",
+    "SpecVerif.Props.C11.redeclared_attr_wins",
+    "SpecVerif.Props.C11.unmentioned_inherits",
+    "SpecVerif.Props.C11.plain_class_property_over_managed",
+    "SpecVerif.Props.C11.plainClassesSilent_of_no_invBy",
+    "SpecVerif.Props.C11.owner_covers_of_spec_head",
+    "SpecVerif.Props.C11.owner_covers_of_silent_plain",
+    "SpecVerif.Props.C11.middle_override_not_covered",
+    "SpecVerif.Props.C11.middle_override_maps",
 ]
 RULE = (
     "case = dependency graph over <= 4 names (kinds: managed attr with/without default, list attr, unmanaged attr "
     "with/without class value, spec_property cache x overridable x annotated; invalidated_by subsets incl. '*'; "
-    "members placed in a spec base class, a spec subclass or an undecorated subclass) x constructor kwargs x "
+    "members placed in a spec base class, a spec subclass or an undecorated subclass; hierarchies of up to 3 classes in "
+    "which names are declared AGAIN in a subclass in every form of the class syntax: re-annotated attr / `n: T` only / "
+    "annotated property, and without annotation a plain value, a property, `n = Attr(...)`, each with the same, other "
+    "or no invalidated_by, over managed and unmanaged inherited names) x constructor kwargs x "
     "__post_init__ ops x history of reads, overrides and mutations through every entry point (setattr, delattr, "
     "with_/update_/transform_/reset_<a>, element helpers, update/transform/reset; in place and copy-on-write; "
     "ill-typed and otherwise failing mutations). quick: fixed graph set + random graphs, random histories; thorough: "
-    "every graph of the 3-name grammar + random 4-name graphs, longer histories. Non-trivial = an operation that "
+    "every graph of the 3-name grammar + every (base declaration x redeclaration) pair of the redeclaration grammar + "
+    "random 4-name graphs, longer histories. Non-trivial = an operation that "
     "changed an instance, created one, called a getter or raised; distinct = distinct (graph, pre-state, op)."
 )
 EXHAUSTIVE = {"quick": False, "thorough": False}
@@ -49,24 +66,37 @@ ASSUMPTIONS = [
     "no dependency cycle passes through an attribute that has a default (the library recurses without bound there: RecursionError)",
     "defaults conform to the declared types; no frozen classes, no custom property setters/deleters (C07/C12 cover those)",
     "invalidation discards user overrides as well as caches (DESIGN.md section 10 item 7)",
+    "an undecorated class does not put a plain value over a managed PROPERTY, and the undecorated classes below the "
+    "last spec class only add new un-annotated properties (not modelled, not generated; see docs/C11.md)",
+    "a spec_property put over an inherited managed attribute without declaring invalidated_by keeps the inherited "
+    "invalidated_by (the library's reading of 'the rest of the inherited configuration still applies')",
 ]
 OPEN_STATEMENTS = [
     "SpecVerif.Props.C11.FullStatement (dependants declared in an undecorated subclass): refuted by full_statement_fails; "
     "fresh_reachable_partial proves it under OwnerCoversDependants (KF-C11-plain-subclass)",
+    "OwnerCoversDependants for every table whose head is a spec class: refuted by middle_override_not_covered (a property "
+    "that an undecorated class between two spec classes puts over a managed name; KF-C11-plain-middle-override); "
+    "owner_covers_of_spec_head proves it under PlainClassesSilent",
 ]
 KF_MATCHER = "plain_subclass_dependant"
+KF2_MATCHER = "plain_middle_override"
 
 _REGISTERED = False
+_REGISTERED2 = False
 _SUPPRESSED = {"cases": 0, "sample": None}
+_SUPPRESSED2 = {"cases": 0, "sample": None}
 _NS = {}
 
 
 def setup():
-    global _REGISTERED
+    global _REGISTERED, _REGISTERED2
     import common
 
     _REGISTERED = any(
         k.get("matcher") == KF_MATCHER and k.get("status") == "open" for k in common.load_known(PID)
+    )
+    _REGISTERED2 = any(
+        k.get("matcher") == KF2_MATCHER and k.get("status") == "open" for k in common.load_known(PID)
     )
     import spec_classes  # noqa: F401  (imported from VERIF_REPO by common.use_repo)
 
@@ -76,14 +106,168 @@ def setup():
 # ---------------------------------------------------------------------------
 
 DERIVED_KINDS = ("attr", "attrnd", "list", "prop")
+ATTR_KINDS = ("attr", "attrnd", "list")
+
+
+def form_of(m):
+    """how the class body writes the declaration: std | viaattr (`n: T = Attr(...)`) | bareattr (`n = Attr(...)`)"""
+    if m["kind"] in ATTR_KINDS:
+        if m.get("f") == "bareattr":
+            return "bareattr"
+        if m.get("inv") or m.get("f") == "viaattr":
+            return "viaattr"
+    return "std"
+
+
+def _annotated(m):
+    if m["kind"] in ATTR_KINDS:
+        return form_of(m) != "bareattr"
+    return m["kind"] == "prop" and bool(m.get("a"))
+
+
+def _binds(m):
+    """the class body leaves a class-level value under the name (`Attr()` without default leaves MISSING)"""
+    k = m["kind"]
+    if k == "attrnd":
+        return form_of(m) != "std"
+    return k != "plainnc"
+
+
+def _dflt(m):
+    return m.get("d", [] if m["kind"] == "list" else 0)
+
+
+def _as_attr(n, d, inv):
+    """a managed attribute whose default is the class-level value d (None = MISSING)"""
+    if d is None:
+        return {"n": n, "kind": "attrnd", "inv": list(inv)}
+    return {"n": n, "kind": "list" if isinstance(d, list) else "attr", "d": copy.deepcopy(d), "inv": list(inv)}
+
+
+def _as_prop(n, src, inv):
+    return {"n": n, "kind": "prop", "c": src.get("c"), "o": src.get("o"), "a": 1, "inv": list(inv), "reads": list(src.get("reads", []))}
+
+
+def _cls_val(classes, upto, n):
+    """getattr(C<upto>, n): the first declaration, most-derived first, that binds a class-level value"""
+    for cl in reversed(classes[: upto + 1]):
+        for m in cl["members"]:
+            if m["n"] == n and _binds(m):
+                return m
+    return None
+
+
+def _effective(case, honour=True):
+    """Which declaration of each name counts, as the library's documentation of inheritance has it
+    (and `spec_class.bootstrap` implements it): walking the hierarchy base first,
+      * a name annotated in a spec class body is declared from scratch there (`invalidated_by` of its `Attr(...)`,
+        else of the spec_property found under the name -- possibly an inherited one when the body says `n: T` only);
+      * an inherited managed name overridden without annotation keeps what the body does not say: a plain value is
+        a new default with the inherited invalidated_by; a spec_property uses its own invalidated_by and falls back
+        to the inherited one only if it declares none; `n = Attr(...)` replaces the declaration altogether;
+      * classes that do not mention the name change nothing about a managed name; an undecorated class between the
+        spec classes that puts a plain value / a spec_property over a managed name changes what instances see (default,
+        kind) and -- per the property text, `honour=True` -- a property's own invalidated_by counts like in a spec
+        class; the library ignores it (`honour=False`, used only by the matcher of KF-C11-plain-middle-override);
+      * an unmanaged name is whatever attribute resolution finds (most-derived binding declaration)."""
+    classes = case["classes"]
+    attrs = {}
+    last_spec = max(i for i, cl in enumerate(classes) if cl["spec"])
+    for ci, cl in enumerate(classes):
+        if not cl["spec"]:
+            if ci < last_spec:
+                seen_here = set()
+                for m in cl["members"]:
+                    n = m["n"]
+                    if n in seen_here or n not in attrs:
+                        continue
+                    seen_here.add(n)
+                    sp = attrs[n]
+                    if m["kind"] == "plain":
+                        attrs[n] = _as_attr(n, _dflt(m), sp["inv"])
+                    elif m["kind"] == "prop":
+                        attrs[n] = _as_prop(n, m, (list(m.get("inv", [])) or sp["inv"]) if honour else sp["inv"])
+            continue
+        done = set()
+        for m in cl["members"]:
+            n = m["n"]
+            if n in done:
+                continue
+            done.add(n)
+            k = m["kind"]
+            inv = list(m.get("inv", []))
+            if _annotated(m):
+                if k == "prop":
+                    attrs[n] = _as_prop(n, m, inv)
+                elif k in ("attr", "list"):
+                    attrs[n] = _as_attr(n, _dflt(m), inv)
+                elif form_of(m) != "std":
+                    attrs[n] = _as_attr(n, None, inv)
+                else:
+                    v = _cls_val(classes, ci - 1, n)
+                    if v is None or v["kind"] == "attrnd":
+                        attrs[n] = _as_attr(n, None, inv)
+                    elif v["kind"] == "prop":
+                        attrs[n] = _as_prop(n, v, inv or v.get("inv", []))
+                    else:
+                        attrs[n] = _as_attr(n, _dflt(v), inv)
+            elif n in attrs:
+                sp = attrs[n]
+                if k in ATTR_KINDS:
+                    attrs[n] = _as_attr(n, None if k == "attrnd" else _dflt(m), inv)
+                elif k == "plain":
+                    attrs[n] = _as_attr(n, _dflt(m), sp["inv"])
+                elif k == "prop":
+                    attrs[n] = _as_prop(n, m, inv or sp["inv"])
+    out = {}
+    names = []
+    for cl in classes:
+        for m in cl["members"]:
+            if m["n"] not in names:
+                names.append(m["n"])
+    for n in names:
+        top = _cls_val(classes, len(classes) - 1, n)
+        top_ci = None
+        if top is not None:
+            top_ci = max(i for i, cl in enumerate(classes) if any(x is top for x in cl["members"]))
+        if top is not None and top_ci > last_spec:
+            e = dict(top)  # bound by an undecorated subclass of the last spec class
+            e["managed"] = n in attrs
+        elif n in attrs:
+            e = dict(attrs[n])
+            e["managed"] = True
+        elif top is not None:
+            e = dict(top)
+            e["managed"] = False
+            if e["kind"] == "prop":
+                e["a"] = 0
+        else:
+            e = {"n": n, "kind": "plainnc", "inv": [], "managed": False}
+        out[n] = e
+    return out
+
+
+_EFF_CACHE = {}
 
 
 def members_of(case):
-    """most-derived declaration of each name wins"""
-    out = {}
+    """the effective declaration of each name (see `_effective`); cached per `classes` object"""
+    key = id(case["classes"])
+    hit = _EFF_CACHE.get(key)
+    if hit is not None and hit[0] is case["classes"]:
+        return hit[1]
+    if len(_EFF_CACHE) > 4096:
+        _EFF_CACHE.clear()
+    eff = _effective(case)
+    _EFF_CACHE[key] = (case["classes"], eff)
+    return eff
+
+
+def redeclared_names(case):
+    seen, out = set(), set()
     for cl in case["classes"]:
-        for m in cl["members"]:
-            out[m["n"]] = m
+        for n in {m["n"] for m in cl["members"]}:
+            (out if n in seen else seen).add(n)
     return out
 
 
@@ -101,9 +285,9 @@ def plain_prefix_names(case):
     return out
 
 
-def edges(case):
+def edges(case, mem=None):
     """x -> d iff d lists x (or '*') in invalidated_by, d != x"""
-    mem = members_of(case)
+    mem = members_of(case) if mem is None else mem
     names = list(mem)
     e = {x: set() for x in names}
     for d, m in mem.items():
@@ -117,9 +301,9 @@ def edges(case):
     return e
 
 
-def reach(case):
+def reach(case, mem=None):
     """strict transitive closure: reach[x] = {d | x ->+ d}"""
-    e = edges(case)
+    e = edges(case, mem)
     r = {}
     for x in e:
         seen, todo = set(), list(e[x])
@@ -133,8 +317,8 @@ def reach(case):
     return r
 
 
-def ancestors(case):
-    r = reach(case)
+def ancestors(case, mem=None):
+    r = reach(case, mem)
     names = all_names(case)
     return {t: {x for x in r if t in r[x]} for t in names}
 
@@ -153,19 +337,20 @@ def well_formed(case):
 
 
 def is_managed(m):
-    return m["kind"] in ("attr", "attrnd", "list") or (m["kind"] == "prop" and m.get("a"))
+    return bool(m.get("managed"))
 
 
 def managed_names(case):
-    """order of metadata.attrs: base classes first, first occurrence keeps its place"""
+    """names of metadata.attrs: base classes first, first occurrence keeps its place"""
     last_spec = max(i for i, cl in enumerate(case["classes"]) if cl["spec"])
     mem = members_of(case)
+    pp = plain_prefix_names(case)
     out = []
     for i, cl in enumerate(case["classes"]):
         if i > last_spec:
             continue
         for m in cl["members"]:
-            if m["n"] not in out and is_managed(mem[m["n"]]) and m["n"] not in plain_prefix_names(case):
+            if m["n"] not in out and is_managed(mem[m["n"]]) and m["n"] not in pp:
                 out.append(m["n"])
     return out
 
@@ -257,18 +442,20 @@ def render(case, ctx):
             inv = "[" + ", ".join(key_src(k) for k in m.get("inv", [])) + "]"
             has_inv = bool(m.get("inv"))
             k = m["kind"]
-            if k == "attr":
-                body.append(
-                    f"    {name}: int = Attr(default={m['d']}, invalidated_by={inv})" if has_inv else f"    {name}: int = {m['d']}"
-                )
-            elif k == "attrnd":
-                body.append(f"    {name}: int = Attr(invalidated_by={inv})" if has_inv else f"    {name}: int")
-            elif k == "list":
-                body.append(
-                    f"    {name}: List[int] = Attr(default=[], invalidated_by={inv})" if has_inv else f"    {name}: List[int] = []"
-                )
+            form = form_of(m)
+            if k in ATTR_KINDS:
+                typ = "List[int]" if k == "list" else "int"
+                kw = ([] if k == "attrnd" else [f"default={_dflt(m)!r}"]) + ([f"invalidated_by={inv}"] if has_inv else [])
+                if form == "bareattr":
+                    body.append(f"    {name} = Attr({', '.join(kw)})")
+                elif form == "viaattr":
+                    body.append(f"    {name}: {typ} = Attr({', '.join(kw)})")
+                elif k == "attrnd":
+                    body.append(f"    {name}: {typ}")
+                else:
+                    body.append(f"    {name}: {typ} = {_dflt(m)!r}")
             elif k == "plain":
-                body.append(f"    {name} = {m['d']}")
+                body.append(f"    {name} = {m['d']!r}")
             elif k == "plainnc":
                 pass
             elif k == "prop":
@@ -516,14 +703,16 @@ def op_tokens(op):
 
 def model_lines(case):
     out = ["reset"]
+    eff = members_of(case)
     for cl in case["classes"]:
         out.append(f"class {1 if cl['spec'] else 0}")
         for m in cl["members"]:
-            reads = ",".join(str(r) for r in m.get("reads", [])) or "-"
+            # what the getter found under the name reads (one pool getter per name, whichever class declares it)
+            reads = ",".join(str(r) for r in eff[m["n"]].get("reads", [])) or "-"
             inv = ",".join(str(k) for k in m.get("inv", [])) or "-"
             out.append(
                 f"mem {m['n']} {m['kind']} {int(bool(m.get('c')))} {int(bool(m.get('o')))} {int(bool(m.get('a')))} "
-                f"{m.get('d', 0)} {reads} {inv}"
+                f"{val_tok(_dflt(m))} {reads} {inv} {form_of(m)}"
             )
     kw = ",".join(f"{k}={val_tok(v)}" for k, v in case.get("ctor", [])) or "-"
     out.append(f"new {kw}")
@@ -643,7 +832,7 @@ def oracle_raw(case):
                             if not called or got != want:
                                 viol.append(f"{label}: dep=n{t} next read gave {got} (getter called={called}), current state gives {want} via={sorted(hit)}")
                     elif m["kind"] in ("attr", "list"):
-                        dv = [] if m["kind"] == "list" else m["d"]
+                        dv = _dflt(m)
                         if res_after.get(t, "<gone>") != dv:
                             viol.append(f"{label}: dep=n{t} is {res_after.get(t, '<gone>')}, not back at its default {dv} via={sorted(hit)}")
                     else:
@@ -701,7 +890,60 @@ def plain_subclass_dependant(case, violation):
     return True
 
 
-KNOWN_MATCHERS = {KF_MATCHER: plain_subclass_dependant}
+def middle_override_names(case):
+    """names n such that an UNDECORATED class strictly between two spec classes declares n as a spec_property with an
+    invalidated_by of its own while a spec class above it manages n (the shape of KF-C11-plain-middle-override)"""
+    classes = case["classes"]
+    spec_idx = [i for i, cl in enumerate(classes) if cl["spec"]]
+    out = set()
+    for ci, cl in enumerate(classes):
+        if cl["spec"] or not (spec_idx and spec_idx[0] < ci < spec_idx[-1]):
+            continue
+        above = _effective({"classes": classes[:ci]}, True)
+        for m in cl["members"]:
+            if m["kind"] == "prop" and m.get("inv") and above.get(m["n"], {}).get("managed"):
+                out.add(m["n"])
+    return out
+
+
+def plain_middle_override(case, violation):
+    """KF-C11-plain-middle-override: the instance's class is a spec class, and every complaint is about a name whose
+    invalidated_by the library takes from the spec base although an undecorated class in between overrides the name
+    with a property that declares its own (or about a name downstream of one), and is not explained by a dependency
+    the library's own map does know (`via=`)."""
+    import re
+
+    if violation == ["correspondence"] or not case["classes"][-1]["spec"]:
+        return False
+    shape = middle_override_names(case)
+    if not shape:
+        return False
+    full = _effective(case, True)
+    code = _effective(case, False)
+    key = lambda m: sorted(map(str, m.get("inv", [])))  # noqa: E731
+    bad = {n for n in full if key(full[n]) != key(code[n])}
+    if not bad or not bad <= shape:
+        return False
+    r = reach(case, full)
+    rc = reach(case, code)
+    tainted = set(bad)
+    for b in bad:
+        tainted |= r.get(b, set()) | rc.get(b, set())
+    anc_code = ancestors(case, code)
+    for line in violation:
+        m = re.search(r"dep=n(\d+)", line)
+        if not m:
+            return False
+        t = int(m.group(1))
+        if t not in tainted:
+            return False
+        via = re.search(r"via=\[([0-9, ]*)\]", line)
+        if via and any(int(x) in anc_code[t] for x in via.group(1).split(",") if x.strip()):
+            return False
+    return True
+
+
+KNOWN_MATCHERS = {KF_MATCHER: plain_subclass_dependant, KF2_MATCHER: plain_middle_override}
 
 
 def oracle(case):
@@ -710,6 +952,11 @@ def oracle(case):
         _SUPPRESSED["cases"] += 1
         if _SUPPRESSED["sample"] is None:
             _SUPPRESSED["sample"] = {"case": case, "violation": v[:3]}
+        return []
+    if v and not _REGISTERED2 and plain_middle_override(case, v):
+        _SUPPRESSED2["cases"] += 1
+        if _SUPPRESSED2["sample"] is None:
+            _SUPPRESSED2["sample"] = {"case": case, "violation": v[:3]}
         return []
     return v
 
@@ -744,6 +991,7 @@ def finish(case):
         for m in cl["members"]:
             if m["kind"] == "prop":
                 m["reads"] = sorted(x for x in anc[m["n"]] if x != m["n"])
+    _EFF_CACHE.pop(id(case["classes"]), None)  # the effective members carry the `reads`
     return case
 
 
@@ -834,6 +1082,192 @@ def random_graph(rng, nnames=4, allow_plain=False):
         if well_formed(c):
             return c
     return finish(graph((True, [mk(0, "attr"), mk(1, "propC", [0])])))
+
+
+# ---- redeclarations: a name declared again further down the hierarchy --------------------------------------------
+
+REDECL_INT_MANAGED = ["value", "propC", "propU", "propN", "bareattr", "bareattrnd", "attr", "attrnd", "propA"]
+REDECL_LIST_MANAGED = ["value", "bareattr", "list"]  # (a property over a List[int] attribute would have to return lists)
+REDECL_UNMANAGED = ["value", "propC", "propU", "propN", "attr", "attrnd", "propA"]
+PLAIN_CLASS_OK = ("plain", "plainnc")
+
+
+def redecl_member(n, form, inv, is_list, d):
+    """the declaration of `n` in a subclass body: `form` says how it is written"""
+    inv = list(inv)
+    val = ([d % 3, 7] if d % 2 else [d]) if is_list else d
+    if form == "value":  # `n = v`: no annotation, no Attr
+        return {"n": n, "kind": "plain", "d": val, "inv": []}
+    if form in PROP_FLAVOURS:  # propC/propU/propN: un-annotated property; propA: re-annotated
+        return mk(n, form, inv)
+    if form == "bareattr":  # `n = Attr(default=v, invalidated_by=...)`, no annotation
+        return {"n": n, "kind": "list" if is_list else "attr", "d": val, "inv": inv, "f": "bareattr"}
+    if form == "bareattrnd":  # `n = Attr(invalidated_by=...)`, no annotation, no default
+        return {"n": n, "kind": "attrnd", "inv": inv, "f": "bareattr"}
+    if form in ("attr", "list"):  # re-annotated with a default
+        return {"n": n, "kind": "list" if is_list else "attr", "d": val, "inv": inv}
+    if form == "attrnd":  # `n: int` (the class-level value of an ancestor shows through) / `n: int = Attr(invalidated_by=..)`
+        return {"n": n, "kind": "attrnd", "inv": inv}
+    raise ValueError(form)
+
+
+def in_plain_class_ok(m):
+    return m["kind"] in PLAIN_CLASS_OK or (m["kind"] == "prop" and not m.get("a"))
+
+
+def random_redeclared_graph(rng, nnames=4):
+    """a hierarchy of 2 or 3 classes in which 1-3 names are declared again in a subclass, in every form the
+    class syntax offers (same or different invalidated_by, none at all, with and without annotation)"""
+    for _ in range(200):
+        base = random_graph(rng, nnames)
+        ms = [m for cl in base["classes"] for m in cl["members"]]
+        for m in ms:
+            m.pop("reads", None)
+        shape = rng.choice(["SS", "SS", "SSS", "SSS", "SPS", "SSP"])
+        specs = [ch == "S" for ch in shape]
+        spec_idx = [i for i, sp in enumerate(specs) if sp]
+        last_spec = spec_idx[-1]
+        classes = [[] for _ in shape]
+        for m in ms:
+            if shape == "SSP":
+                ci = rng.choice([0, 0, 1])
+            else:
+                ci = rng.choice([0, 0, 1] if len(shape) == 2 else [0, 0, 0, 1, 1, 2])
+            if not specs[ci] and not in_plain_class_ok(m):
+                ci = 0
+            classes[ci].append(m)
+        if not classes[0]:
+            continue
+        ok = True
+        for _k in range(rng.choice([1, 1, 2, 3])):
+            # where: a class below the one that declares the name (never the undecorated tail)
+            cands = [(m["n"], ci) for ci, cl in enumerate(classes[:last_spec]) for m in cl]
+            if not cands:
+                ok = False
+                break
+            n, src = rng.choice(cands)
+            ti = rng.choice([i for i in range(src + 1, last_spec + 1)])
+            if any(m["n"] == n for m in classes[ti]):
+                continue
+            eff = _effective({"classes": [{"spec": sp, "members": cl} for sp, cl in zip(specs[:ti], classes[:ti])]})
+            e = eff[n]
+            is_list = e["kind"] == "list" or isinstance(e.get("d"), list)
+            if specs[ti]:
+                forms = (REDECL_LIST_MANAGED if is_list else REDECL_INT_MANAGED) if e["managed"] else (["value", "propC", "list"] if is_list else REDECL_UNMANAGED)
+            else:
+                # an undecorated class between the spec classes; over a managed name a property with its own
+                # invalidated_by is KF-C11-plain-middle-override
+                forms = ["value"] if is_list else (["value", "propC", "propU", "propN"] if e["managed"] else ["value", "propC", "propU"])
+                if e["managed"] and e["kind"] == "prop":
+                    # (a plain value over a managed PROPERTY in an undecorated class: the entry stays masked, the value
+                    #  is a class-level fallback without being a default -- not modelled, see docs/C11.md)
+                    forms = ["propC", "propU", "propN"]
+            form = rng.choice(forms)
+            keys = [x for x in range(nnames) if x != n] + ["*"]
+            how = rng.random()
+            if how < 0.2:
+                inv = []
+            elif how < 0.35:
+                inv = [k for k in e.get("inv", [])]
+            else:
+                inv = rng.sample(keys, rng.choice([1, 1, 2]))
+            classes[ti].append(redecl_member(n, form, inv, is_list, rng.randint(0, 9)))
+        if not ok:
+            continue
+        if shape == "SSP" and not all(in_plain_class_ok(m) and m["kind"] == "prop" for m in classes[2]):
+            continue
+        if shape == "SSP" and not _REGISTERED:
+            continue
+        c = graph(*zip(specs, classes))
+        if not redeclared_names(c):
+            continue
+        c = finish(c)
+        if well_formed(c):
+            return c
+    return finish(graph((True, [mk(0, "attr"), mk(1, "attr"), mk(2, "propA", [0])]), (True, [mk(2, "propC", [0, 1])])))
+
+
+def redecl_grammar():
+    """every (declaration in the base class) x (redeclaration in a spec subclass) pair of the grammar, the redeclared
+    name in the middle of a chain n0/n1 -> n2 -> n3; as the instance's own class, and inherited once more by a
+    silent spec subclass / a silent undecorated subclass"""
+    out = []
+    bases = [("attr", [0]), ("attr", []), ("attrnd", [0]), ("list", [0]), ("list", []), ("propA", [0]), ("propA", []),
+             ("propC", [0]), ("propU", []), ("plain", [])]
+    invs = [[], [1], [0, 1], ["*"]]
+    for bk, binv in bases:
+        is_list = bk == "list"
+        managed = bk in ("attr", "attrnd", "list", "propA")
+        forms = (REDECL_LIST_MANAGED if is_list else REDECL_INT_MANAGED) if managed else REDECL_UNMANAGED
+        for form in forms:
+            for inv in invs if form != "value" else [[]]:
+                for depth in ("SS", "SSS", "SSP", "SPS"):
+                    if depth == "SSP" and not _REGISTERED:
+                        continue
+                    b = mk(2, bk, binv)
+                    r = redecl_member(2, form, inv, is_list, 4)
+                    cls = [(True, [mk(0, "attr"), mk(1, "attr"), b]), (True, [r, mk(3, "propC", [2])])]
+                    if depth == "SPS":  # the redeclaration sits in an undecorated class in the middle
+                        if not in_plain_class_ok(r) or (is_list and r["kind"] == "prop") or (bk == "propA" and form == "value"):
+                            continue
+                        cls = [(True, [mk(0, "attr"), mk(1, "attr"), b]), (False, [r]), (True, [mk(3, "propC", [2])])]
+                    if depth == "SSS":
+                        cls.append((True, []))
+                    elif depth == "SSP":
+                        cls.append((False, []))
+                    c = finish(graph(*copy.deepcopy(cls)))
+                    if well_formed(c):
+                        out.append(c)
+    return out
+
+
+def middle_graphs():
+    """an undecorated class between two spec classes overrides a managed name (KF-C11-plain-middle-override when the
+    override is a property with dependencies of its own)"""
+    S, P = True, False
+    g = []
+    g.append(graph((S, [mk(0, "attr"), mk(1, "attr"), mk(2, "attr", [0])]), (P, [mk(2, "propC", [1])]), (S, [mk(3, "propC", [2])])))
+    g.append(graph((S, [mk(0, "attr"), mk(1, "attr"), mk(2, "propA", [0])]), (P, [mk(2, "propU", [0, 1])]), (S, [mk(3, "attr", [2])])))
+    g.append(graph((S, [mk(0, "attr"), mk(1, "list"), mk(2, "attrnd", [0])]), (P, [mk(2, "propN", ["*"])]), (S, [mk(3, "propC", [2])])))
+    # no finding: the override declares nothing of its own / is a plain value / is overridden again by the spec class
+    g.append(graph((S, [mk(0, "attr"), mk(1, "attr"), mk(2, "attr", [0])]), (P, [mk(2, "propC", [])]), (S, [mk(3, "propC", [2])])))
+    g.append(graph((S, [mk(0, "attr"), mk(1, "attr", [0]), mk(2, "list", [0])]),
+                   (P, [redecl_member(1, "value", [], False, 6), redecl_member(2, "value", [], True, 3)]), (S, [mk(3, "propC", [1, 2])])))
+    g.append(graph((S, [mk(0, "attr"), mk(1, "attr"), mk(2, "attr", [0])]), (P, [mk(2, "propC", [1])]), (S, [mk(2, "propC", [0, 1]), mk(3, "propC", [2])])))
+    g.append(graph((S, [mk(0, "attr"), mk(1, "attr"), mk(2, "attr", [0])]), (P, [mk(2, "propC", [1])]), (S, [mk(2, "attrnd"), mk(3, "propC", [2])])))
+    return [finish(x) for x in g if well_formed(finish(x))]
+
+
+def redecl_fixed_graphs():
+    """hand-picked hierarchies: the instance's class (or an ancestor) overrides an inherited managed name"""
+    S, P = True, False
+    g = []
+    # annotated cached property in the base; the subclass overrides it un-annotated with MORE dependencies
+    g.append(graph((S, [mk(0, "attr"), mk(1, "attr"), mk(2, "propA", [0]), mk(3, "propC", [2])]), (S, [mk(2, "propC", [0, 1])])))
+    # ... the base property has no dependencies at all (not cached there); the override is cached
+    g.append(graph((S, [mk(0, "attr"), mk(1, "list"), {**mk(2, "propA", []), "c": 0}]), (S, [mk(2, "propC", [1]), mk(3, "propC", [2])])))
+    # ... a different (disjoint) dependency, and the override is inherited once more
+    g.append(graph((S, [mk(0, "attr"), mk(1, "attr"), mk(2, "propA", [0])]), (S, [mk(2, "propN", [1])]), (S, [mk(3, "propC", [2])])))
+    # re-defaulting keeps the inherited invalidated_by (attr and list); un-annotated property without dependencies too
+    g.append(graph((S, [mk(0, "attr"), mk(1, "attr", [0]), mk(2, "list", [0]), mk(3, "propC", [1, 2])]),
+                   (S, [redecl_member(1, "value", [], False, 8), redecl_member(2, "value", [], True, 5)])))
+    g.append(graph((S, [mk(0, "attr"), mk(1, "attr", [0]), mk(2, "propA", [0])]), (S, [mk(1, "propC", []), mk(2, "propU", []), mk(3, "propC", [1, 2])])))
+    # `n = Attr(...)` replaces the declaration: other / no dependencies
+    g.append(graph((S, [mk(0, "attr"), mk(1, "attr"), mk(2, "attr", [0]), mk(3, "propC", [2])]),
+                   (S, [redecl_member(2, "bareattr", [1], False, 6)]), (S, [redecl_member(2, "bareattr", [], False, 2)])))
+    # `n: int` only: the inherited class-level value (default / property) shows through, its Attr options do not
+    g.append(graph((S, [mk(0, "attr"), mk(1, "attr", [0]), mk(2, "propA", [0]), mk(3, "plain")]),
+                   (S, [mk(1, "attrnd"), mk(2, "attrnd"), mk(3, "attrnd")])))
+    # an attribute becomes a property and an attribute again, three levels
+    g.append(graph((S, [mk(0, "attr"), mk(1, "attr"), mk(2, "attr", [0])]), (S, [mk(2, "propC", [1]), mk(3, "propC", [2])]),
+                   (S, [redecl_member(2, "value", [], False, 1)])))
+    # unmanaged property redeclared in an undecorated class in the middle, then annotated by the instance's class
+    g.append(graph((S, [mk(0, "attr"), mk(1, "attr"), mk(2, "propC", [0])]), (P, [mk(2, "propC", [1])]), (S, [mk(3, "propC", [2])])))
+    g.append(graph((S, [mk(0, "attr"), mk(1, "attr"), mk(2, "propC", [0])]), (P, [mk(2, "propU", [1])]), (S, [mk(2, "attrnd"), mk(3, "propC", [2])])))
+    # wildcard on one side only
+    g.append(graph((S, [mk(0, "attr"), mk(1, "list"), mk(2, "propA", ["*"])]), (S, [mk(2, "propC", [0]), mk(3, "attr", [2])])))
+    g.append(graph((S, [mk(0, "attr"), mk(1, "list"), mk(2, "propA", [0])]), (S, [mk(2, "propC", ["*"]), mk(3, "attr", [2])])))
+    return [finish(x) for x in g if well_formed(finish(x))]
 
 
 def grammar3():
@@ -1048,9 +1482,21 @@ def random_history(rng, graph_case, length, with_post=None):
 def gen_cases(tier, rng):
     fixed = fixed_graphs()
     plain = plain_graphs()
+    refixed = redecl_fixed_graphs() + middle_graphs()
+    regrammar = redecl_grammar()
     if tier == "search":
         while True:
-            g = rng.choice(fixed) if rng.random() < 0.3 else random_graph(rng, rng.choice([2, 3, 4, 4]), allow_plain=_REGISTERED)
+            x = rng.random()
+            if x < 0.2:
+                g = rng.choice(fixed)
+            elif x < 0.3:
+                g = rng.choice(refixed)
+            elif x < 0.4:
+                g = rng.choice(regrammar)
+            elif x < 0.6:
+                g = random_redeclared_graph(rng, rng.choice([3, 4, 4]))
+            else:
+                g = random_graph(rng, rng.choice([2, 3, 4, 4]), allow_plain=_REGISTERED)
             if rng.random() < 0.35:
                 yield patterned_history(rng, g, rng.randint(2, 4))
             else:
@@ -1071,14 +1517,36 @@ def gen_cases(tier, rng):
                 c = random_history(rng, g, rng.randint(8, 14))
                 c["origin"] = "plain-subclass"
                 yield c
-        for k in range(1800):
-            g = random_graph(rng, rng.choice([2, 3, 4, 4, 4]), allow_plain=True)
-            if k % 3 == 2:
+        for g in refixed:
+            for _ in range(4):
+                c = random_history(rng, g, rng.randint(8, 14))
+                c["origin"] = "redecl-fixed"
+                yield c
+            for _ in range(4):
                 c = patterned_history(rng, g, rng.randint(2, 4))
-                c["origin"] = "random-patterned"
+                c["origin"] = "redecl-fixed-patterned"
+                yield c
+        for g in rng.sample(regrammar, 90):  # a different ninth of the grammar per seed (thorough: all of it)
+            if rng.random() < 0.5:
+                c = patterned_history(rng, g, rng.randint(2, 4))
+                c["origin"] = "redecl-grammar-patterned"
             else:
                 c = random_history(rng, g, rng.randint(8, 14))
-                c["origin"] = "random"
+                c["origin"] = "redecl-grammar"
+            yield c
+        for k in range(1500):
+            if k % 5 == 4:
+                g = random_redeclared_graph(rng, rng.choice([3, 4, 4]))
+                tag = "random-redecl"
+            else:
+                g = random_graph(rng, rng.choice([2, 3, 4, 4, 4]), allow_plain=True)
+                tag = "random"
+            if k % 3 == 2:
+                c = patterned_history(rng, g, rng.randint(2, 4))
+                c["origin"] = tag + "-patterned"
+            else:
+                c = random_history(rng, g, rng.randint(8, 14))
+                c["origin"] = tag
             yield c
         return
     # thorough
@@ -1103,14 +1571,35 @@ def gen_cases(tier, rng):
         c = patterned_history(rng, g, rng.randint(2, 4))
         c["origin"] = "grammar3-patterned"
         yield c
+    for g in refixed:
+        for _ in range(30):
+            c = random_history(rng, g, rng.randint(12, 24))
+            c["origin"] = "redecl-fixed"
+            yield c
+        for _ in range(20):
+            c = patterned_history(rng, g, rng.randint(3, 6))
+            c["origin"] = "redecl-fixed-patterned"
+            yield c
+    for g in regrammar:
+        c = random_history(rng, g, rng.randint(10, 16))
+        c["origin"] = "redecl-grammar"
+        yield c
+        c = patterned_history(rng, g, rng.randint(2, 4))
+        c["origin"] = "redecl-grammar-patterned"
+        yield c
     for k in range(6000):
-        g = random_graph(rng, 4, allow_plain=True)
+        if k % 4 == 3:
+            g = random_redeclared_graph(rng, 4)
+            tag = "random4-redecl"
+        else:
+            g = random_graph(rng, 4, allow_plain=True)
+            tag = "random4"
         if k % 3 == 2:
             c = patterned_history(rng, g, rng.randint(3, 6))
-            c["origin"] = "random4-patterned"
+            c["origin"] = tag + "-patterned"
         else:
             c = random_history(rng, g, rng.randint(12, 24))
-            c["origin"] = "random4"
+            c["origin"] = tag
         yield c
 
 
@@ -1126,7 +1615,10 @@ def shrink(case, at=None):
 
 
 def _graph_key(case):
-    return [[cl["spec"], [[m["n"], m["kind"], m.get("c"), m.get("o"), m.get("a"), m.get("inv")] for m in cl["members"]]] for cl in case["classes"]]
+    return [
+        [cl["spec"], [[m["n"], m["kind"], m.get("c"), m.get("o"), m.get("a"), m.get("inv"), form_of(m), m.get("d") if isinstance(m.get("d"), list) else None] for m in cl["members"]]]
+        for cl in case["classes"]
+    ]
 
 
 def nontrivial(case, real):
@@ -1153,6 +1645,15 @@ def tags(case, real):
             t.append("wildcard")
     if case.get("post"):
         t.append("post_init-ops")
+    firsts = {}
+    for ci, cl in enumerate(case["classes"]):
+        for m in cl["members"]:
+            if m["n"] in firsts:
+                b = firsts[m["n"]]
+                how = "annotated" if _annotated(m) else ("Attr" if form_of(m) == "bareattr" else "bare")
+                inv = "none" if not m.get("inv") else ("same" if sorted(map(str, m["inv"])) == sorted(map(str, b.get("inv", []))) else "other")
+                t.append(f"redecl:{b['kind']}->{m['kind']}:{how}:inv={inv}:{'spec' if cl['spec'] else 'plain'}-class")
+            firsts[m["n"]] = m
     body = [ln for ln in real if " ;; " in ln][1 + len(case.get("post", [])):]
     for (i, inplace, op), ln in zip(case["ops"], body):
         head = ln.split(" ;; ")[0]
@@ -1173,12 +1674,15 @@ def extra(tier, rng):
             "known_finding_registered": _REGISTERED,
             "plain_subclass_violations_suppressed_until_registered": _SUPPRESSED["cases"],
             "plain_subclass_sample": _SUPPRESSED["sample"],
+            "middle_override_finding_registered": _REGISTERED2,
+            "middle_override_violations_suppressed_until_registered": _SUPPRESSED2["cases"],
+            "middle_override_sample": _SUPPRESSED2["sample"],
         },
     }
 
 
 MANIFEST_ENTRY = {
-    "level_text": "Lean 4 proof, about a hand-written executable model of invalidation_map / invalidate_attrs / mutate_attr / __delattr__ / spec_property and every mutation entry point, that (a) invalidate_attrs terminates within a cubic fuel bound on every table with no dependency cycle through a defaulted attribute and clears exactly the transitive dependants of the mutated name, whatever the iteration order and cache state; (b) the invariant Fresh (every cached, non-overridden slot equals its getter on the cache-free state; every invalidated_by attribute is at its default if a dependency was assigned later) holds after construction and after every history of reads, overrides and mutations through every entry point, in place or on a copy; (c) the next read after a dependency change recomputes, unrelated and failed mutations discard nothing. The model is tied to /repo on every run by executing the same histories on rendered spec classes and on the model and comparing value read, getter-call log and every instance __dict__ after each step; an independent oracle recomputes each getter on a cache-free clone.",
+    "level_text": "Lean 4 proof, about a hand-written executable model of bootstrap's assembly of metadata.attrs along the class hierarchy (which declaration of a redeclared name counts) / invalidation_map / invalidate_attrs / mutate_attr / __delattr__ / spec_property and every mutation entry point, that (a) invalidate_attrs terminates within a cubic fuel bound on every table with no dependency cycle through a defaulted attribute and clears exactly the transitive dependants of the mutated name, whatever the iteration order and cache state; (b) the invariant Fresh (every cached, non-overridden slot equals its getter on the cache-free state; every invalidated_by attribute is at its default if a dependency was assigned later) holds after construction and after every history of reads, overrides and mutations through every entry point, in place or on a copy; (c) the next read after a dependency change recomputes, unrelated and failed mutations discard nothing; (d) the invalidation map is exactly what the effective declarations say: a property declared by the instance's own spec class with dependencies of its own is invalidated by exactly those whatever the ancestors declared, a re-defaulted attribute keeps the inherited invalidated_by. The model is tied to /repo on every run by executing the same histories on rendered spec classes and on the model and comparing value read, getter-call log and every instance __dict__ after each step; an independent oracle recomputes each getter on a cache-free clone.",
     "level_note": "Trusted: Lean kernel; axioms propext/Classical.choice/Quot.sound; the hand-written model and the harness. Assumes pure getters that read only declared (transitive) dependencies and no cycle through a defaulted attribute. OPEN: dependants declared in an undecorated subclass are never invalidated (KF-C11-plain-subclass): proved only under OwnerCoversDependants, with a decided counter-witness for the full statement.",
     "technique": "Lean 4 invariant proof (all histories) + exact characterisation of the invalidation fixpoint over a hand-written model; differential correspondence against the real library with a getter-call counter",
 }
